@@ -3,7 +3,7 @@ import fcntl, glob, hashlib, json, os, shutil, subprocess, sys, time
 
 VERIF = os.path.dirname(os.path.dirname(os.path.abspath(__file__)))
 REPO = os.environ.get("VJSX_REPO", "/repo")
-CACHE = os.path.join(VERIF, ".cache")
+CACHE = os.environ.get("VJSX_CACHE") or os.path.join(VERIF, ".cache")   # tools/parallel.py gives each worker its own
 DRIVER_TARGET = os.path.join(CACHE, "extractor-target")
 DRIVER = os.path.join(DRIVER_TARGET, "debug", "vjsx-facts")
 CRATES = ["swc_vue_jsx_visitor", "swc_plugin_vue_jsx"]
